@@ -168,7 +168,10 @@ def job_can_reach(name, tier, a, b):
             ok = z3.BoolVal(md.variant == 0 and tt.variant == 0 and dd.variant == 0)
             if md.variant == 0 and tt.variant == 0 and dd.variant == 0:
                 ok = z3.And(secs(md) == smd, secs(tt) == z3.If(same, 0, stt), dd.fields[0].e == z3.If(same, 0, sdd))
-            J.prove(pc, ok, 'minimal duration / dead-head time / dead-head distance between activities')
+            def mk2(m, net=net):
+                return dict(signature='minimal duration %s->%s' % (A['kind'], B['kind']), what='minimal_duration_between_nodes(%s,%s) differs from shunting / travel + 2 x dead-head shunting' % (A['id'], B['id']),
+                            scenario=dict(instance=NB.to_json(net, m), ops=[dict(op='min_duration', a=A['id'], b=B['id'])]), expect=[mval(m, smd)])
+            J.prove(pc, ok, 'minimal duration / dead-head time / dead-head distance between activities', mk2)
             if J.sat(pc, z3.And(A['et'] == B['st'], z3.BoolVal(reach))) is not None: J.covers.add('tie:end==start reachable')
         J.witness(pc, lambda m, net=net, reach=reach: dict(scenario=dict(instance=NB.to_json(net, m), ops=[dict(op='can_reach', a=A['id'], b=B['id'])]), symbolic=[bool(reach)]))
         J.sample('can_reach(%s:%s, %s:%s) == rule, path reach=%s' % (A['kind'], A['id'], B['kind'], B['id'], reach))
